@@ -801,6 +801,9 @@ func (m *Machine) unop(instr *ssa.UnOp, x value) value {
 		if p == nil {
 			m.fault("nil pointer dereference")
 		}
+		if m.Hooks.OnLoad != nil {
+			m.Hooks.OnLoad(m, p)
+		}
 		return load(p)
 	case token.NOT:
 		return m.notv(x)
@@ -1258,9 +1261,11 @@ func (it *stringIter) next(m *Machine) tuple {
 }
 
 type mapIter struct {
-	m    *mapv
-	keys []value
-	pos  int
+	m     *mapv
+	keys  []value
+	pos   int
+	skeys []symEntry
+	spos  int
 }
 
 func (it *mapIter) next(_ *Machine) tuple {
@@ -1271,6 +1276,11 @@ func (it *mapIter) next(_ *Machine) tuple {
 			return tuple{true, k, copyVal(v)}
 		}
 	}
+	if it.spos < len(it.skeys) {
+		e := it.skeys[it.spos]
+		it.spos++
+		return tuple{true, e.k, copyVal(e.v)}
+	}
 	return tuple{false, nil, nil}
 }
 
@@ -1280,7 +1290,7 @@ func (m *Machine) rangeIter(x value, t types.Type) iter {
 		if x == nil {
 			return &mapIter{m: newMap()}
 		}
-		return &mapIter{m: x, keys: append([]value(nil), x.keys...)}
+		return &mapIter{m: x, keys: append([]value(nil), x.keys...), skeys: append([]symEntry(nil), x.skeys...)}
 	case string:
 		return &stringIter{s: x}
 	case *symstr:
